@@ -198,6 +198,22 @@ pub fn oracle_pass(cand: Pool, workers: usize, recheck_every: usize) -> (Pool, O
 
 /// `sc_sim iso-batch <in> <out>`: evaluate every call of <in> (JSON lines) in isolation, write outcomes.
 pub fn iso_batch_main(input: &str, output: &str, workers: usize) -> i32 {
+    if std::env::var("SC_AMBIENT_ONE_CPU").is_ok() {
+        // the number of CPUs this process may use is ambient too
+        unsafe {
+            let mut set: libc::cpu_set_t = std::mem::zeroed();
+            if libc::sched_getaffinity(0, std::mem::size_of::<libc::cpu_set_t>(), &mut set) == 0 {
+                for cpu in 0..libc::CPU_SETSIZE as usize {
+                    if libc::CPU_ISSET(cpu, &set) {
+                        let mut one: libc::cpu_set_t = std::mem::zeroed();
+                        libc::CPU_SET(cpu, &mut one);
+                        libc::sched_setaffinity(0, std::mem::size_of::<libc::cpu_set_t>(), &one);
+                        break;
+                    }
+                }
+            }
+        }
+    }
     let text = match std::fs::read_to_string(input) {
         Ok(t) => t,
         Err(_) => return 2,
@@ -262,6 +278,7 @@ pub fn ambient_eval(calls: &[Call], work_dir: &str, workers: usize, seed: u64) -
         .env("RUST_BACKTRACE", "full")
         .env("RUST_MIN_STACK", "1048576")
         .env("TMPDIR", "/nonexistent/tmp")
+        .env("SC_AMBIENT_ONE_CPU", "1")
         .env(format!("SC_AMBIENT_{}", seed), format!("{}", splitmix64(seed)))
         .current_dir("/")
         .stdin(std::process::Stdio::null())
@@ -289,7 +306,7 @@ pub fn ambient_recheck(pool: &Pool, every: usize, work_dir: &str, workers: usize
     // every `every`-th entry, and every malformed / extreme one (inputs whose handling is most likely to consult
     // something ambient: locale-style separators, limits, messages)
     let idx: Vec<usize> = (0..pool.entries.len())
-        .filter(|i| every > 0 && (i % every == 0 || matches!(pool.entries[*i].origin, "malformed" | "extreme_shape" | "readme" | "seed_vocabulary" | "edge_tokens")))
+        .filter(|i| every > 0 && (i % every == 0 || matches!(pool.entries[*i].origin, "malformed" | "extreme_shape" | "readme" | "seed_vocabulary" | "edge_tokens" | "boundary_ladder")))
         .collect();
     if idx.is_empty() {
         st.reason = "empty sample".into();
